@@ -5,7 +5,7 @@ CONSTANTS
   Clients = {1}
   MaxAtt = 3
   MaxCuts = 1
-  MaxProxies = 2
+  MaxProxies = 1
   Dev_NoCleanup = TRUE
   Dev_RouterFirst = TRUE
   Dev_NoLease = TRUE
@@ -16,6 +16,6 @@ CONSTANTS
   Dev_EnableErrorIgnored = FALSE
   Tag = "T"
   MaxLen = 99
-  SampleMod = 4
+  SampleMod = 10
 VIEW View
 CHECK_DEADLOCK FALSE
